@@ -175,6 +175,9 @@ pub struct NetCfg {
     /// data of these pipes (stream id, sender) is only delivered by explicit `deliver_bytes` calls of
     /// a script (exact chunk boundaries); FIN/RESET still flow by themselves
     pub manual_pipes: Vec<(u64, usize)>,
+    /// application think time (see `Probe::yield_point`): non-zero = the simulated applications
+    /// yield to the scheduler between body reads/writes, decided from this seed
+    pub think: u64,
 }
 
 impl Default for NetCfg {
@@ -186,6 +189,7 @@ impl Default for NetCfg {
             ordered_accept: true,
             stall_budget: Vec::new(),
             manual_pipes: Vec::new(),
+            think: 0,
         }
     }
 }
@@ -199,6 +203,7 @@ impl NetCfg {
             ordered_accept: true,
             stall_budget: Vec::new(),
             manual_pipes: Vec::new(),
+            think: if rng.bool() { rng.next() | 1 } else { 0 },
         }
     }
 }
